@@ -1,5 +1,8 @@
 """C13 bounded stand-in: MPS.compress and MPS.from_vector obey their truncation error bounds."""
 import itertools, json
+import os
+for _v in ('OMP_NUM_THREADS', 'OPENBLAS_NUM_THREADS', 'MKL_NUM_THREADS'):     # tiny matrices, 14 worker processes:
+    os.environ.setdefault(_v, '1')                                            # threaded BLAS only causes contention
 import numpy as np
 import pytenet as ptn
 from . import gen, oracle
